@@ -117,36 +117,44 @@ def run(ctx):
         ctx.missing("R4", "the print built-in's implementation")
         return
     ctx.fn(P)
-    pps = Walker(P, max_visits=3).paths()
+    import folds
+    import inline
+    import iters
+    pol = inline.helpers(prog, keep=("get_ground_term",))
+    pps = Walker(P, max_visits=3, inline=pol).paths()
     ctx.stats["paths_walked"] += len(pps)
     ok, why, n = True, "", 0
     for p in pps:
         if p.end != "return":
             continue
-        pushes = [e for e in p.calls() if e["callee"].endswith("::push")]
         prints = [e for e in p.calls() if e["callee"] in PRINT_FNS]
         if len(prints) > 1:
             ok, why = False, "print writes %d times on one path" % len(prints)
-        for e in pushes:
-            n += 1
-            v = strip(e["args"][1])
-            # value pushed: format!("{}", X) -> some call chain mentioning X
-            gt = [x for x in p.calls() if x["callee"].endswith("get_ground_term") and p.events.index(x) < p.events.index(e)]
-            if not gt:
-                ok, why = False, "an argument is rendered without looking up its binding"
-                continue
-            g = gt[-1]
-            res = g["result"]
-            dec = outcome_of(p, res)
-            arg = strip(g["args"][0])
-            if dec == "Some":
-                if not mentions(v, lambda t: t == ("field", res, "Some.0")):
-                    ok, why = False, "a bound argument is not rendered by its bound value"
-            elif dec == "None":
-                if not mentions(v, lambda t: t == arg) or mentions(v, lambda t: t == res):
-                    ok, why = False, "an unbound argument is not rendered as itself"
-            else:
-                ok, why = False, "the binding lookup result is not examined"
+    # the strings handed to the formatter: one per argument, in order (a loop pushing them, or iter().map(..).collect())
+    em = folds.element_map(prog, P, inline=pol)
+    if em["err"]:
+        ok, why = False, "how the arguments are rendered is not recognised (%s)" % em["err"]
+    for v, is_elem, q, ev_ in em["pairs"]:
+        n += 1
+        upto = q.events.index(ev_) if ev_ is not None else len(q.events)
+        gt = [x for x in q.events[:upto] if x["k"] == "call" and x["callee"].endswith("get_ground_term")]
+        if not gt:
+            ok, why = False, "an argument is rendered without looking up its binding"
+            continue
+        g = gt[-1]
+        res = g["result"]
+        dec = outcome_of(q, res)
+        arg = strip(g["args"][0])
+        if not is_elem(arg):
+            ok, why = False, "the binding looked up (%s) is not that of the argument at this position" % show(arg)[:60]
+        if dec == "Some":
+            if not mentions(v, lambda t: t == ("field", res, "Some.0")):
+                ok, why = False, "a bound argument is not rendered by its bound value"
+        elif dec == "None":
+            if not mentions(v, lambda t: t == arg) or mentions(v, lambda t: t == res):
+                ok, why = False, "an unbound argument is not rendered as itself"
+        else:
+            ok, why = False, "the binding lookup result is not examined"
     ctx.ob("R4", "print-renders-bound-values", ok and n > 0, ctx.where(P), why or
            "each of %d pushed strings formats get_ground_term(arg) when bound, else arg" % n)
 
@@ -163,7 +171,7 @@ def run(ctx):
         return
     ctx.fn(F)
     strs = ("param", 1, F.locals[1].get("name") or "")
-    fps = Walker(F, max_visits=3, max_paths=50000).paths()
+    fps = Walker(F, max_visits=3, max_paths=50000, inline=pol).paths()
     ctx.stats["paths_walked"] += len(fps)
     n, bad = 0, None
 
@@ -176,7 +184,7 @@ def run(ctx):
         t = strip(t)
         while t[0] == "call" and (t[1].endswith("::to_string") or t[1].endswith("::as_str") or t[1].endswith("::deref")):
             t = strip(t[2][0])
-        return t[0] == "call" and t[1].endswith("::index") and strip(t[2][0]) == strs and t[2][1][0] == "const" and t[2][1][3] == 0
+        return iters.first_of(t) == strs
     for p in fps:
         for e in p.calls():
             if len(e["args"]) >= 2 and any(is_marker(a) for a in e["args"][1:]):
